@@ -624,7 +624,27 @@ def r12_12(chk):
     chk.floor("R12.12", 2, "start slice and truncation")
 
 
+def r12_13(chk):
+    chk.rule("R12.13", "the table-driven byte converters fix the element width themselves: an index array handed to array_to_bytes is cast to the alphabet's 1-byte type before tobytes() -- numpy's default integer is 8 bytes wide, and tobytes() of such an array feeds the complement / decoding tables eight bytes per symbol")
+    m = chk.repo.module("core/new_alphabet.py")
+    ci = m.cls("array_to_bytes")
+    fn = ci.methods.get("__call__")
+    if not isinstance(fn, ast.FunctionDef):
+        raise AnalysisError("array_to_bytes.__call__ not found")
+    ps = [p for p in params_of(fn) if p != "self"]
+    calls = [c for c in walk_no_nested(fn) if isinstance(c, ast.Call) and isinstance(c.func, ast.Attribute) and c.func.attr == "tobytes"]
+    if not calls:
+        raise AnalysisError("array_to_bytes.__call__: tobytes() not found")
+    for c in calls:
+        base = c.func.value
+        cast = isinstance(base, ast.Call) and (((call_name(base) or "").split(".")[-1] in ("asarray", "array", "ascontiguousarray") and any(kw.arg == "dtype" for kw in base.keywords)) or (isinstance(base.func, ast.Attribute) and base.func.attr == "astype"))
+        raw_param = isinstance(base, ast.Name) and base.id in ps
+        chk.decide(cast and not raw_param, "R12.13", key(m, "array_to_bytes.__call__", "element width fixed before tobytes()"), m.loc(c), f"`{norm(c)[:60]}`", f"`{norm(c)}` serialises the caller's array as it is: for int64 indices (numpy's default) every symbol becomes eight bytes and MolType.complement / from_indices return garbage eight times too long")
+    chk.floor("R12.13", 1, "one converter")
+
+
 def run(chk):
+    r12_13(chk)
     r12_12(chk)
     r12_11(chk)
     r12_10(chk)
